@@ -75,6 +75,54 @@ def _name(t):
     return t.a[0][0] if t.op in ("call", "mutcall") else None
 
 
+# boolean crate functions kept as atoms: their meaning is decided by a rule of its own (spec.check_same_scheme_semantics)
+SEMANTIC_ATOMS = {"same_scheme"}
+
+
+def apply_closure(prog, clo, args):
+    """Return value of a closure value `clo` (aggregate of its captures) applied to argument terms: the body's return
+    term with the environment parameter replaced by the captures and the other parameters by `args` (a missing
+    argument stays a parameter of the closure).  None when `clo` is not a closure of this crate."""
+    from .sym import evaluate
+    from .terms import subst, mk_ref
+
+    c = clo
+    while c.op in ("ref", "deref"):
+        c = c.a[0]
+    if not (c.op == "agg" and c.a[0][0] == "closure") or prog is None:
+        return None
+    g = prog.fns.get(c.a[0][1])
+    if g is None:
+        return None
+    gev = evaluate(g)
+    env = mk_ref(c) if str(g.locals[1].get("ty", "")).startswith("&") else c
+    mapping = {T("param", 1, gev.pname(1)): env}
+    for i, a in enumerate(args):
+        if a is not None and i + 2 <= g.arg_count:
+            mapping[T("param", i + 2, gev.pname(i + 2))] = a
+    return strip_sites(subst(gev.ret, mapping))
+
+
+# preconditions in force (see `given`): callbacks (atom, polarity) -> "this literal cannot hold"
+_REFUTED = []
+
+
+class given:
+    """`with given(refuted): ...` - while deciding guards, alternatives of a disjunction that contain a literal the
+    rule's precondition refutes (e.g. "the list is empty" for a rule about non-empty lists) are dropped."""
+
+    def __init__(self, refuted):
+        self.refuted = refuted
+
+    def __enter__(self):
+        _REFUTED.append(self.refuted)
+        return self
+
+    def __exit__(self, *a):
+        _REFUTED.pop()
+        return False
+
+
 def formula(t, prog=None, depth=3):
     """Boolean reading of a term of type bool / Choice / u8-of-Choice."""
     t = strip_sites(t)
@@ -100,6 +148,16 @@ def _formula(t, prog, depth):
             return f_or([_formula(args[0], prog, depth), _formula(args[1], prog, depth)])
         if n in _ID_CALLS and len(args) == 1:
             return _formula(args[0], prog, depth)
+        if n in ("Option::<T>::is_some_and", "Option::<T>::is_none_or") and len(args) == 2 and depth > 0:
+            body = apply_closure(prog, args[1], [T("field", T("downcast", _unref(args[0]), "Some"), "0")])
+            if body is not None:
+                from .terms import subst as _subst
+
+                body = _subst(body, {})  # rebuild through the simplifying constructors (tuple patterns of the payload)
+                some = ("atom", "is_some", _unref(args[0]))
+                if n.endswith("is_some_and"):
+                    return f_and([some, _formula(body, prog, depth - 1)])
+                return f_or([f_not(some), _formula(body, prog, depth - 1)])
         if n == "PartialEq::eq" and len(args) == 2:
             return ("atom", "eq", _unref(args[0]), _unref(args[1]))
         if n == "PartialEq::ne" and len(args) == 2:
@@ -115,7 +173,7 @@ def _formula(t, prog, depth):
         if n in ("CtOption::<T>::is_none", "Option::<T>::is_none", "Result::<T, E>::is_err") and len(args) == 1:
             return f_not(("atom", "is_some", _unref(args[0])))
         # local boolean helper: inline its returned formula
-        if prog is not None and depth > 0 and n in prog.fns:
+        if prog is not None and depth > 0 and n in prog.fns and n.split("::")[-1] not in SEMANTIC_ATOMS:
             from .sym import evaluate
             from .terms import subst
 
@@ -178,6 +236,12 @@ def literals(f, pol=True):
     elif k == "or" and not pol:
         for g in f[1]:
             out |= literals(g, False)
+    elif k in ("and", "or") and _REFUTED:
+        # a disjunction: what every alternative that the precondition leaves possible implies
+        alts = [literals(g, pol) for g in f[1]]
+        alts = [a for a in alts if not any(r(atom, p) for r in _REFUTED for atom, p in a)]
+        if alts:
+            out |= set.intersection(*alts)
     return out
 
 
